@@ -786,14 +786,20 @@ def run(ctx):
         terms.append('chk_send %d%%nat %s %d%%nat %s' % (retry, c_replies(itf.log), len(itf.log), obs))
         meta.append(('send_message', retry, seq))
         D.add(('send', retry, tuple(seq)), True, 'send_message')
-    for dop, why in sorted(downgraded.items()):
+    # reshaped: shape produced but neither in the class nor the recorded one - same requirement
+    reshaped = {}
+    for qn in unclassified:
+        n = qn.split('.')[-1]
+        if n not in downgraded:
+            reshaped[n] = 'its exchange shape is neither in the straight-line class nor the recorded shape of %s' % qn
+    for dop, why in sorted(list(downgraded.items()) + list(reshaped.items())):
         if dop.startswith('_') or dop not in ops:
             continue                     # private: exercised through the public operations that call it
         bad = [k for k in fails if (':%s:' % dop) in k or k.endswith(':' + dop)]
         if dop not in per_op or 'faults' in per_op[dop] or bad:
             key = 'downgraded-without-oracle:%s' % dop
             fails.setdefault(key, C.Violation(
-                key=key, what='%s: the translator could not produce its exchange shape in this run (%s): the class theorem '
+                key=key, what='%s: not in the class in this run (%s): the class theorem '
                 'is not claimed for it, and the fault oracle did not exercise it cleanly' % (dop, why),
                 replay={'oracle': 'fault', 'input': {'op': dop, 'faults': {}}}, found_input=False))
     failing, errors = A.with_fresh_gen(GENS, ['Corr/C08.vo'], lambda: C.coq_cases(
@@ -813,6 +819,7 @@ def run(ctx):
         'ops_not_exercised': skipped,
         'ops_unclassified_by_model': unclassified,
         'ops_downgraded': {k: v for k, v in downgraded.items() if k in ops},
+        'ops_reshaped': reshaped,
         'per_op': per_op,
         'completion_codes': 'all 0x01..0xff' if not q else ['0x%02x' % c for c in ccs],
         'correspondence_cases': len(terms),
